@@ -489,6 +489,8 @@ class SymInt(int):
     __rtruediv__ = __truediv__
 
     def __pow__(self, o, mod=None):
+        if mod is not None and not isinstance(o, SymInt) and not isinstance(mod, SymInt):
+            return _powmod(self.t, o, mod)
         if isinstance(o, SymInt) or mod is not None:
             raise Escape("pow with symbolic exponent / modulus")
         if not isinstance(o, int):
@@ -590,6 +592,25 @@ class SymInt(int):
         if t is None:
             return NotImplemented
         return liftb(self.t >= t)
+
+
+def _powmod(x, e, m):
+    """pow(x, e, m) for concrete e, m.  Only the Fermat inverse  pow(x, m-2, m)  for the
+    prime m of the current field is given a contract (assumed: builtin pow; Fermat's little
+    theorem, Lean-checked in lemmas/):   r in [0,m),  x = 0 (mod m) -> r = 0,  else x*r = 1 (mod m)."""
+    P = cur()
+    if P.p is None or m != P.p or e != m - 2:
+        raise Escape("three-argument pow outside the Fermat-inverse pattern")
+    key = ("powinv", z3.simplify(x).get_id())
+    memo = P.__dict__.setdefault("_powinv", {})
+    if key not in memo:
+        r = P.fresh("fermat")
+        xm = z3.simplify(x % m)
+        P.axiom(z3.And(r >= 0, r < m))
+        P.axiom(z3.Implies(xm == 0, r == 0))
+        P.axiom(z3.Implies(xm != 0, fmul(xm, r) == 1))
+        memo[key] = r
+    return SymInt(memo[key])
 
 
 class SymBool(SymInt):
